@@ -89,7 +89,7 @@ def cases(draw):
     if kind == "jwe":
         types.update(ALG_SPECIFIC.get(alg, {}))
     rule = draw(st.sampled_from(["type", "type", "type", "type", "missing", "crit", "unregistered", "strict-off", "custom-ok", "custom-type", "custom-required",
-                                 "alg-specific-missing", "b64-no-crit", "unregistered-crit", "none"]))
+                                 "alg-specific-missing", "b64-no-crit", "unregistered-crit", "custom-crit", "none"]))
     pos = "protected" if ser == "compact" else draw(st.sampled_from(["protected", "unprotected"] + (["recipient"] if kind == "jwe" else [])))
     c = {"kind": kind, "dir": direction, "ser": ser, "rfc7797": rfc7797, "alg": alg, "rule": rule, "pos": pos, "seed": draw(st.integers(0, 1000)),
          # a registry with caller-registered parameters is created (and used) first: it must not influence the registry under test
@@ -118,14 +118,14 @@ def cases(draw):
         c["name"] = draw(st.sampled_from(["x-ext", "foo", "custom", "b65"] + (foreign if rule == "unregistered" else [])))
         c["value"] = draw(st.sampled_from([1, "v", [1], {"a": 1}, None])) if c["name"] in ("x-ext", "foo", "custom", "b65") else \
             {"epk": {"kty": "EC"}, "p2c": 8, "zip": "DEF", "enc": "A128GCM"}.get(c["name"], "dGV4dA")
-    elif rule in ("custom-ok", "custom-type", "custom-required"):
+    elif rule in ("custom-ok", "custom-type", "custom-required", "custom-crit"):
         # a caller may also re-register a standard parameter, e.g. to make kid or cty mandatory
         c["name"] = draw(st.sampled_from(["custom", "x-ext"] + (["kid", "cty"] if rule == "custom-required" else [])))
         c["ctype"] = "str" if c["name"] in ("kid", "cty") else draw(st.sampled_from(["str", "int", "bool", "list[str]", "url", "jwk"]))
         good = {"str": "v", "int": 5, "bool": False, "list[str]": ["a"], "url": "https://a/b", "jwk": {"kty": "oct"}}[c["ctype"]]
         bad = {"str": 5, "int": "5", "bool": draw(st.sampled_from(["no", 0, 1, 1.0])), "list[str]": [1], "url": 7, "jwk": "oct"}[c["ctype"]]
         c["value"] = good if rule != "custom-type" else bad
-        c["required"] = rule == "custom-required" or draw(st.booleans())
+        c["required"] = rule == "custom-required" or (draw(st.booleans()) and rule != "custom-crit")
     elif rule == "alg-specific-missing":
         if kind != "jwe" or alg not in ALG_SPECIFIC or direction != "consume":
             c["rule"] = "none"
@@ -142,6 +142,8 @@ def cases(draw):
         # the header under test belongs to the SECOND of two recipients (the first one is clean and decryptable);
         # every recipient must be valid ("all") or one suffices ("any": verify_all_recipients=False)
         c["multi"] = draw(st.sampled_from([None, "all", "any"]))
+        if rule == "custom-crit":
+            c["multi"] = None         # crit stands in the shared protected header: every recipient would have to carry the parameter
         if c["multi"] and rule in ("custom-ok", "custom-type"):
             c["required"] = False     # the clean first recipient does not carry the caller-registered parameter
     return c
@@ -194,6 +196,11 @@ def build_headers(c):
     elif rule == "custom-ok":
         target[name] = c["value"]
         exp = "accept"
+    elif rule == "custom-crit":
+        # an extension the application registered with THIS registry, and understands, may be listed as critical
+        target[name] = c["value"]
+        prot["crit"] = list(prot.get("crit", [])) + [name]
+        exp = "accept"
     elif rule == "custom-type":
         target[name] = c["value"]
         exp = "reject"
@@ -215,7 +222,7 @@ def registries(c):
     from joserfc import jws, jwe, rfc7797
     from joserfc.registry import HeaderParameter
     hr = None
-    if c["rule"] in ("custom-ok", "custom-type", "custom-required"):
+    if c["rule"] in ("custom-ok", "custom-type", "custom-required", "custom-crit"):
         hr = {c["name"]: HeaderParameter("caller registered", c["ctype"], c.get("required", False))}
     strict = c["rule"] != "strict-off" and not c.get("lenient")
     if c["kind"] == "jws":
